@@ -40,6 +40,9 @@ pub enum UfAct {
     Find(usize),
     GetData(usize),
     Sets,
+    /// first step only: the forest is constructed by `with_capacity(n)` (255: `Default::default()`); a capacity is
+    /// room, not content
+    Construct(u8),
 }
 
 /// Reference model: explicit partition plus one bag per class.
@@ -56,6 +59,10 @@ impl RefUf {
         self.classes.len() - 1
     }
     fn apply(&mut self, a: UfAct) {
+        if let UfAct::Construct(_) = a {
+            self.classes.clear();
+            return;
+        }
         match a {
             UfAct::Insert(x) | UfAct::Find(x) | UfAct::GetData(x) => {
                 self.class_of(x);
@@ -80,7 +87,7 @@ impl RefUf {
                 let i = self.class_of(x);
                 self.classes[i].1 = Bag::of(t);
             }
-            UfAct::Sets => {}
+            UfAct::Sets | UfAct::Construct(_) => {}
         }
         self.classes.sort();
     }
@@ -129,6 +136,8 @@ fn apply_real(f: &mut Forest, a: UfAct) {
         UfAct::Sets => {
             let _ = f.sets();
         }
+        UfAct::Construct(255) => *f = Forest::default(),
+        UfAct::Construct(n) => *f = Forest::with_capacity(n as usize),
     }
 }
 
@@ -231,6 +240,9 @@ impl Model for UfModel {
     fn actions(&self, s: &UfState, out: &mut Vec<UfAct>) {
         if s.depth < self.max_depth && s.panicked.is_none() && compare_uf(&s.real, &s.model).is_ok() {
             out.extend(uf_actions(self.universe));
+            if s.depth == 0 {
+                out.extend([0u8, 1, 3, 4, 9, 255].map(UfAct::Construct));
+            }
         }
     }
     fn next_state(&self, s: &UfState, a: UfAct) -> Option<UfState> {
@@ -539,6 +551,8 @@ fn parse_uf_act(s: &str) -> UfAct {
         UfAct::Find(nums[0])
     } else if s.starts_with("GetData") {
         UfAct::GetData(nums[0])
+    } else if s.starts_with("Construct") {
+        UfAct::Construct(nums[0] as u8)
     } else {
         UfAct::Sets
     }
@@ -704,7 +718,7 @@ impl Check for C19 {
             transitions,
             &format!(
                 "stateright BFS over all histories of depth <= {} of the real DisjointSet<usize, multiset> over universe {{0..3}} with 41 \
-                 actions (insert, 16 unions, add-data a/b, set-data, find, get-data, sets) and all histories of depth <= {} of the real \
+                 actions (insert, 16 unions, add-data a/b, set-data, find, get-data, sets) that may start with a construction by with_capacity(0, 1, 3, 4, 9) or Default and all histories of depth <= {} of the real \
                  VectorMap<usize,u8> with 17 actions (insert x 2 values, remove, write through get_mut, toggle all values through iter_mut) that may start with a bulk construction (From<Vec>, From<&[..]>, with_capacity + inserts; every pair list of length <= 2 (3 thorough) over 3 keys x 2 values, repeated keys included); state = (Debug of the real object incl. parent pointers, reference model, depth). \
                  Every transition executes the real method and the reference model in lock-step and every state is compared through \
                  all observers (twice, so observers are checked to be pure): that is the conformance check, so every explored \
